@@ -183,7 +183,7 @@ fn unsafe_lint(e: &Engine) {
 }
 
 pub fn run(e: &Engine) {
-    e.set_rule("cases are byte strings: (1) an exhaustive header/footer grid for every length 0..64 x 9 version values x 80 root addresses (0,1,15,16,17, L-40..L+10, 2^32, 2^63, u64::MAX-21..u64::MAX) x 3 key counts x 3 fillers; (2) random byte strings biased toward lengths 30..40; (3) every truncation and every single-byte xor of valid FSTs (small shapes and the golden files) plus insertions and appended junk; oracle under catch_unwind: Fst::new, Map::new, Set::new agree and never panic; on Ok: len, is_empty, fst_type, size, as_bytes, to_vec, verify never panic, size()==input length, as_bytes()==input; non-trivial = input of length >= 36 with a supported version or of length 32..35 (gets past the gates); distinct by content hash");
+    e.set_rule("cases are byte strings: (1) an exhaustive header/footer grid for every length 0..64 x 9 version values x 80 root addresses (0,1,15,16,17, L-40..L+10, 2^32, 2^63, u64::MAX-21..u64::MAX) x 3 key counts x 3 fillers; (2) random byte strings biased toward lengths 30..40; (3) every truncation and every single-byte xor of valid FSTs (small shapes and the golden files) plus insertions and appended junk; oracle under catch_unwind: Fst::new, Map::new, Set::new never panic (whether they agree with each other on malformed input is recorded, not required); on Ok: len, is_empty, fst_type, size, as_bytes, to_vec, verify never panic, size()==input length, as_bytes()==input; non-trivial = input of length >= 36 with a supported version or of length 32..35 (gets past the gates); distinct by content hash");
     e.assume("root(), get, stream on malformed-but-openable input may panic (documented) and are not asserted; the harness is built with debug assertions and overflow checks on, so arithmetic overflow in the opening path would also be reported");
     let seed = e.seed;
     e.run_enum("header-footer-grid", 65 * 9 * 80 * 3 * 3, |idx, rec| {
